@@ -101,10 +101,11 @@ fn aread_with(ctor: &str, w: &[&str], setmax: Option<u32>) -> Option<String> {
 }
 
 #[derive(Clone, Copy, PartialEq)]
-enum WAct { Write(usize), Sync, Poll, Drop, SetMax(u32) }
+enum WAct { Write(usize), Sync, Poll, Drop, SetMax(u32), Create(Option<usize>) }
 
 /// `awrite <maxlen> <vals> <script> <acts>`; acts: `w<i>` call `write(vals[i])` and poll once,
-/// `s` call `sync()` and poll once, `p` poll the pending future, `d` drop it.  `w` / `s` while a
+/// `s` call `sync()` and poll once, `p` poll the pending future, `d` drop it, `c<i>` / `cs` call `write(vals[i])` / `sync()` and drop
+/// the future without polling it.  `w` / `s` while a
 /// future is pending drop that future first (it borrows the writer).
 pub fn awrite(w: &[&str]) -> Option<String> { awrite_with("n", 0, w) }
 pub fn awriteb(w: &[&str]) -> Option<String> { awrite_with(w.first()?, 0, &w[1..]) }
@@ -117,6 +118,8 @@ fn awrite_with(ctor: &str, flush_mode: u8, w: &[&str]) -> Option<String> {
         "s" => Some(WAct::Sync),
         "p" => Some(WAct::Poll),
         "d" => Some(WAct::Drop),
+        "cs" => Some(WAct::Create(None)),
+        _ if a.starts_with('c') => a[1..].parse::<usize>().ok().filter(|k| *k < vs.len()).map(|k| WAct::Create(Some(k))),
         _ if a.starts_with('m') => a[1..].parse::<u32>().ok().map(WAct::SetMax),
         _ => a.strip_prefix('w').and_then(|k| k.parse::<usize>().ok()).filter(|k| *k < vs.len()).map(WAct::Write)
     }).collect::<Option<_>>()?;
@@ -131,6 +134,12 @@ fn awrite_with(ctor: &str, flush_mode: u8, w: &[&str]) -> Option<String> {
             WAct::Poll | WAct::Drop => { out.push("-".into()); i += 1; continue }
             // `set_max_len(&mut self)`: no future can be alive (the previous one was dropped at the end of the last iteration)
             WAct::SetMax(k) => { wr.set_max_len(k); out.push("-".into()); i += 1; continue }
+            // a future that is created and dropped without ever being polled (the losing branch of a select, a task aborted before its
+            // first poll): futures are lazy, nothing may have started
+            WAct::Create(k) => {
+                match k { Some(k) => { let f = wr.write(&vs[k]); drop(f) } None => { let f = wr.sync(); drop(f) } }
+                out.push("-".into()); i += 1; continue
+            }
             WAct::Write(k) => {
                 let (wr, v) = (&mut wr, &vs[k]);
                 Box::pin(async move { format!("w:{}", show_write(&wr.write(v).await)) })
@@ -150,7 +159,7 @@ fn awrite_with(ctor: &str, flush_mode: u8, w: &[&str]) -> Option<String> {
                     match acts[i] {
                         WAct::Poll => { i += 1 }
                         WAct::Drop => { out.push("-".into()); i += 1; break }
-                        WAct::Write(_) | WAct::Sync | WAct::SetMax(_) => break
+                        WAct::Write(_) | WAct::Sync | WAct::SetMax(_) | WAct::Create(_) => break
                     }
                 }
             }
